@@ -33,7 +33,7 @@ def run(tier, seed):
     unlisted, listed = vlib.classify(PID, bad)
     cov = {'states': e1['states'], 'transitions': e1['transitions'], 'traces_validated_against_impl': len(chunks),
            'samples': [{k: x[k] for k in x if k != 'c'} for x in samples.values()], 'evaluations': v['n'], 'distinct_nontrivial': len(distinct),
-           'rule': 'one case = one recorded print->parse or parse call with distinct arguments. Instants: field-boundary grid (7 years x 12 months x boundary days x 7 hours x 4 minutes x 3 seconds x 6 ms forms) + seeded random, both printers, 8 accepted spellings (basic/extended, Z, space, .fff). Durations: unit-boundary grid +-1 s incl. 2^31 and 2^32 ms, seeded random up to 10 years, up to 14 equivalent spellings each',
+           'rule': 'one case = one recorded print->parse or parse call with distinct arguments. Instants: field-boundary grid (7 years x 12 months x boundary days x 7 hours x 4 minutes x 3 seconds x 6 ms forms) + seeded random, both printers, 8 accepted spellings (basic/extended, Z, space, .fff). Durations: unit-boundary grid +-1 s incl. 2^31 and 2^32 ms, seeded random up to 10 years, up to 18 equivalent spellings each incl. weeks combined with days and a time part',
            'lines_by_kind': dict(kinds), 'mismatching_lines': v['nbad'],
            'skipped_undefined': v['nskip'], 'skipped_note': 'durations with a sub-second part (no ISO text form in iCalendar), negative durations and spellings outside the stated grammar are outside the property',
            'exhaustive': False}
